@@ -31,8 +31,8 @@ def _number_validator(self, number):
 
 
 def _link_geometry_to_cell(self, geom):
+    geom._add_new_children_to_cell(geom, cell=self)
     geom._set_cell(self)
-    geom._add_new_children_to_cell(geom)
 
 
 class Cell(Numbered_MCNP_Object):
